@@ -413,6 +413,11 @@ func goid() int64 {
 	return id
 }
 
+// goroutine states in which a goroutine cannot go on by itself
+var parked = map[string]bool{"chan receive": true, "chan send": true, "select": true, "semacquire": true, "sync.WaitGroup.Wait": true,
+	"sync.Mutex.Lock": true, "sync.RWMutex.Lock": true, "sync.RWMutex.RLock": true, "sync.Cond.Wait": true, "IO wait": true,
+	"chan receive (nil chan)": true, "select (no cases)": true}
+
 // settle waits until no goroutine other than the caller is RUNNING code of the repository or of this driver: every such
 // goroutine is parked (at a gate, in WaitGroup.Wait, ...) or gone. It is the "the released goroutine has done all it can
 // do" signal of the scheduler and does not depend on any observable of the code under test.
@@ -439,9 +444,8 @@ func settle(giveUp time.Duration) error {
 			if !strings.Contains(body, "nuts-foundation/nuts-node/") && !strings.Contains(body, "drivers/pkicrl.") {
 				continue
 			}
-			state := strings.Trim(strings.SplitN(strings.Join(f[2:], " "), ",", 2)[0], "[]:")
-			switch state {
-			case "running", "runnable", "syscall":
+			state := strings.TrimSpace(strings.SplitN(strings.Trim(strings.Join(f[2:], " "), "[]:"), ",", 2)[0])
+			if !parked[state] {
 				active = head
 			}
 		}
@@ -459,11 +463,13 @@ func settle(giveUp time.Duration) error {
 // ------------------------------------------------------------------------------------------------ environment
 
 type delivery struct {
-	Actor string
-	Key   string // endpoint or "dl"
-	Obj   string
-	Done  bool
-	gid   int64
+	Actor   string
+	Key     string // endpoint or "dl"
+	Obj     string
+	Free    bool // made inside the synchronous denylist subscribers (not gated)
+	PastEOF bool // the script released the end of the body
+	Done    bool // the goroutine has processed the response
+	gid     int64
 }
 
 // env is what one script's validator sees of the outside world: clock, endpoints, scheduler, and the ledger of what was
@@ -541,9 +547,19 @@ func (t *transportT) RoundTrip(req *http.Request) (*http.Response, error) {
 	// the response is determined now
 	e.mu.Lock()
 	id := e.srv[key]
-	d := &delivery{Actor: actor, Key: key, Obj: id, gid: gid}
+	d := &delivery{Actor: actor, Key: key, Obj: id, gid: gid, Free: free}
 	e.ledg = append(e.ledg, d)
 	e.mu.Unlock()
+	if e.sabot == "serve-stale" && key != "dl" {
+		// oracle self-test: the environment hands out the oldest list whenever the script says a revoking one is served
+		if o, ok := e.w.crlByID[id]; ok && len(o.Rev) > 0 {
+			for _, alt := range e.w.cat.Crl[key] {
+				if alt.Kind == "good" && alt.Iss == o.Iss && len(alt.Rev) == 0 {
+					id = alt.ID
+				}
+			}
+		}
+	}
 	second := func() {
 		if !free {
 			e.g.block(actor, "eof:"+key)
